@@ -7,6 +7,7 @@ import (
 	"encoding/json"
 	"fmt"
 	"os"
+	"regexp"
 	"sort"
 	"strconv"
 	"strings"
@@ -196,8 +197,15 @@ func normalizeExport(module string, bz []byte) ([]byte, string) {
 		out, _ := json.Marshal(m)
 		return out, "C19-incentives-gauge-activation-not-exported"
 	}
+	if module == "staking" && drv.Known("C19-staking-unbonding-id-not-exported") {
+		// the unbonding-operation counter is not part of the staking genesis (cosmos-sdk fork): ids assigned after an
+		// import restart at 1; the ids are masked, everything else in the staking state is still compared
+		return unbondingIDRe.ReplaceAll(bz, []byte(`"unbonding_id":"*"`)), "C19-staking-unbonding-id-not-exported"
+	}
 	return bz, ""
 }
+
+var unbondingIDRe = regexp.MustCompile(`"unbonding_id":"[0-9]+"`)
 
 // knownImportFailure maps an InitChain failure to a listed known finding (by its exact message), or "".
 func knownImportFailure(msg string) string {
